@@ -6,9 +6,11 @@ import Pfl.Model.Names
 import Pfl.Props.C01_Det
 import Pfl.Props.C03_Rev
 import Pfl.Props.C03_Bool
+import Pfl.Proofs.NamesLemmas
 namespace Pfl
 namespace Names
 open ENFA
+set_option linter.unusedSectionVars false
 variable {σ τ : Type} [DecidableEq σ] [DecidableEq τ]
 
 /-- names under which `to_single_state` is faithful: pairwise different, non-empty, no `;` -/
@@ -19,18 +21,34 @@ def Clean (states : List σ) (names : σ → List Char) : Prop :=
 /-- with clean names the merged name determines the subset -/
 theorem mergeName_keyInj (A : ENFA σ) (names : σ → List Char) (h : Clean A.states names) :
     A.KeyInj (mergeName names) := by
-  sorry
+  obtain ⟨hinj, hne, hsc⟩ := h
+  intro S T hS hT heq
+  have hmem := mem_of_join_sort_eq (S.map names) (T.map names)
+    (fun x hx => by
+      obtain ⟨q, hq, rfl⟩ := List.mem_map.mp hx
+      exact ⟨hne q (hS q hq), hsc q (hS q hq)⟩)
+    (fun x hx => by
+      obtain ⟨q, hq, rfl⟩ := List.mem_map.mp hx
+      exact ⟨hne q (hT q hq), hsc q (hT q hq)⟩) heq
+  intro q
+  constructor
+  · intro hq
+    obtain ⟨r, hr, hrq⟩ := List.mem_map.mp ((hmem (names q)).mp (List.mem_map.mpr ⟨q, hq, rfl⟩))
+    rw [← hinj r (hT r hr) q (hS q hq) hrq]; exact hr
+  · intro hq
+    obtain ⟨r, hr, hrq⟩ := List.mem_map.mp ((hmem (names q)).mpr (List.mem_map.mpr ⟨q, hq, rfl⟩))
+    rw [← hinj r (hS r hr) q (hT q hq) hrq]; exact hr
 
 /-- hence `to_deterministic` with the library's naming keeps the language (clean names) -/
 theorem toDet_named_lang_partial (A : ENFA σ) (hA : A.WF) (names : σ → List Char)
     (h : Clean A.states names) (fuel : Nat) (D : ENFA (List Char))
     (hD : A.toDet (mergeName names) true fuel = some D) (w : List Nat) :
-    D.Lang w ↔ A.Lang w := by
-  sorry
+    D.Lang w ↔ A.Lang w :=
+  toDet_lang A hA (mergeName names) (mergeName_keyInj A names h) fuel D hD w
 
 /-- the full claim ("any hashable state values, including names that look like merged
 names") is false: a concrete NFA with pairwise different names whose determinisation
-accepts a word the NFA rejects (design-round defect D01) -/
+differs from the NFA on some word (design-round defect D01; here `y z` is lost, under the other symbol order `x z` is gained) -/
 def d01 : ENFA Nat :=
   { states := [0, 1, 2, 3, 4], syms := [0, 1, 2], starts := [0], finals := [4],
     delta := [(0, some 0, 1), (0, some 0, 2), (0, some 1, 3), (3, some 2, 4)] }
@@ -42,19 +60,64 @@ theorem toDet_named_lang_false :
         (∀ p ∈ A.states, ∀ q ∈ A.states, names p = names q → p = q) →
         ∀ D, A.toDet (mergeName names) false 100 = some D →
         ∀ w : List Nat, D.acceptsD (w.map some) = A.acceptsN (w.map some)) := by
-  sorry
+  intro h
+  have h1 := h d01 d01Names (by decide)
+  rw [mergeName_eq_mergeName'] at h1
+  have key : (match d01.toDet (mergeName' d01Names) false 100 with
+      | some D => D.acceptsD ([1, 2].map some) != d01.acceptsN ([1, 2].map some)
+      | none => false) = true := by decide +kernel
+  cases hD : d01.toDet (mergeName' d01Names) false 100 with
+  | none => rw [hD] at key; exact absurd key (by decide)
+  | some D =>
+    rw [hD] at key
+    have h2 := h1 D hD [1, 2]
+    dsimp only at key
+    rw [h2] at key
+    simp at key
 
 /-- pair names are faithful when no name contains `;` -/
 theorem pairName_inj (sa : List σ) (sb : List τ) (na : σ → List Char) (nb : τ → List Char)
     (ha : Clean sa na) (hb : Clean sb nb) :
     ∀ p ∈ ENFA.prod sa sb, ∀ q ∈ ENFA.prod sa sb, pairName na nb p = pairName na nb q → p = q := by
-  sorry
+  rintro ⟨p1, p2⟩ hp ⟨q1, q2⟩ hq heq
+  rw [mem_prod] at hp hq
+  simp only [pairName, List.append_assoc, List.cons_append, List.nil_append] at heq
+  obtain ⟨h1, h2⟩ := split_at_first ';' _ _ _ _ (ha.2.2 p1 hp.1) (ha.2.2 q1 hq.1) heq
+  simp only [List.cons.injEq, true_and] at h2
+  rw [ha.1 p1 hp.1 q1 hq.1 h1, hb.1 p2 hp.2 q2 hq.2 h2]
 
 /-- and not in general: `("a; b", "c")` and `("a", "b; c")` get the same name -/
 theorem pairName_not_inj :
     ¬ (∀ (na nb : Nat → List Char), (∀ p q, na p = na q → p = q) → (∀ p q, nb p = nb q → p = q) →
         ∀ p q : Nat × Nat, pairName na nb p = pairName na nb q → p = q) := by
-  sorry
+  intro h
+  let na : Nat → List Char := fun n =>
+    match n with
+    | 0 => ['a', ';', ' ', 'b']
+    | 1 => ['a']
+    | n + 2 => List.replicate (n + 5) 'x'
+  let nb : Nat → List Char := fun n =>
+    match n with
+    | 0 => ['c']
+    | 1 => ['b', ';', ' ', 'c']
+    | n + 2 => List.replicate (n + 5) 'x'
+  have hinj : ∀ f : Nat → List Char, (∀ n, (f (n + 2)) = List.replicate (n + 5) 'x') →
+      f 0 ≠ f 1 → (f 0).length < 5 → (f 1).length < 5 → ∀ p q, f p = f q → p = q := by
+    intro f hf h01 h0 h1 p q hpq
+    have hlen := congrArg List.length hpq
+    match p, q with
+    | 0, 0 => rfl
+    | 1, 1 => rfl
+    | 0, 1 => exact absurd hpq h01
+    | 1, 0 => exact absurd hpq.symm h01
+    | 0, q + 2 => rw [hf, List.length_replicate] at hlen; omega
+    | 1, q + 2 => rw [hf, List.length_replicate] at hlen; omega
+    | p + 2, 0 => rw [hf, List.length_replicate] at hlen; omega
+    | p + 2, 1 => rw [hf, List.length_replicate] at hlen; omega
+    | p + 2, q + 2 => rw [hf, hf, List.length_replicate, List.length_replicate] at hlen; omega
+  have := h na nb (hinj na (fun _ => rfl) (by decide) (by decide) (by decide))
+    (hinj nb (fun _ => rfl) (by decide) (by decide) (by decide)) (0, 0) (1, 1) (by decide)
+  exact absurd this (by decide)
 
 end Names
 end Pfl
